@@ -11,6 +11,7 @@ for d in /verif/seeded/*/; do
   [ $((i % N)) -eq $K ] || continue
   name=$(basename $d)
   own=${name%%-*}
+  if [ -n "$FROM" ] && [[ "$own" < "$FROM" ]]; then continue; fi
   ids=$(python3 - "$d" "$own" <<'PY'
 import json,re,sys
 m=json.load(open(sys.argv[1]+'/meta.json'))
